@@ -31,12 +31,15 @@ def run(c):
     thorough = c.tier == "thorough"
     c.rule = ("patterns: every atom, pair and begin/any x literal x end/any triple over pools of literals (plain, case-folded, "
               "[Ff], non-ASCII, U+FFFD, surrogate, with newline), any-variants, anchors (^ $ \\A \\z, (?m)), flags in front of "
-              "every fast-path shape, near misses of ^\\p{Lu}, plus seeded random patterns; inputs: ~60 fixed strings (empty, "
-              "multi-line, case variants, non-ASCII, invalid UTF-8) plus strings derived from the pattern's literals, plus strings beginning "
+              "every fast-path shape, near misses of ^\\p{Lu}, an anchor next to a dot-star (every spelling of either) around a literal under every flag prefix, "
+              "every metacharacter where it is a literal (escaped, in a bracket expression, inside \\Q..\\E) next to real groups, plus seeded random patterns; inputs: ~60 fixed strings (empty, "
+              "multi-line, case variants, non-ASCII, invalid UTF-8) plus strings derived from the pattern's literals (also several lines with the literal on the "
+              "first / a middle / the last line), every printable ASCII character alone and inside a word for the metacharacter patterns, plus strings beginning "
               "with the runes on both sides of every boundary of the pattern's classes and with runes of every unicode predicate; a case "
               "(pattern, input) is non-trivial when textmatch chose a fast path or regexp matches; distinct by (pattern, input)")
     c.trusted += [
-        "go2coq textmatch translator (closures and if/switch cascade of compileOptimized, matcher methods -> Gallina)",
+        "go2coq textmatch translator (closures and if/switch cascade of compileOptimized, matcher methods -> Gallina; the exact shapes of the exported "
+        "Compile -- the pattern string goes to compile() unchanged --, of compile() and of newInputValue)",
         "regexp/syntax.Parse delivers the tree (serialised by harness/cmd/c11); regexp.MustCompile is the oracle",
         "Section hypothesis of C11_fast_path_equiv (table_sound): for every entry of the REGENERATED table of prefix classes, "
         "syntax.Parse of the pattern string is Concat[BeginText, CharClass] whose class equals the entry's unicode predicate and "
